@@ -1162,6 +1162,20 @@ def extract_filter_shape():
         raise ExtractError(f"{rel}: Filter::push")
     add("filterPushAppends", "true" if re.sub(r"\s+", "", brace_block(fimp, m.end() - 1)) == "{self.items.push(item);}" else "false",
         "net.rs Filter::push is `self.items.push(item);`", ty="Bool")
+    # every constructor / setter of an entry stores exactly its argument in exactly its field
+    ok = True
+    for f in fields:
+        mw = re.search(r"pub\s+fn\s+with_%s\s*\(\s*%s\s*:\s*\w+\s*\)\s*->\s*Self\s*\{" % (f, f), imp)
+        ms = re.search(r"pub\s+fn\s+set_%s\s*\(\s*mut\s+self\s*,\s*%s\s*:\s*\w+\s*\)\s*->\s*Self\s*\{" % (f, f), imp)
+        if not mw or not ms:
+            raise ExtractError(f"{rel}: FilterItem::with_{f} / set_{f}")
+        bw = re.sub(r"\s+", "", brace_block(imp, mw.end() - 1))
+        bs = re.sub(r"\s+", "", brace_block(imp, ms.end() - 1))
+        ok = ok and bw == "{Self{%s:Some(%s),..Default::default()}}" % (f, f) and bs == "{self.%s=Some(%s);self}" % (f, f)
+    add("filterItemCtorsStoreTheirArgument", "true" if ok else "false",
+        "net.rs FilterItem::with_F(v) is `Self { F: Some(v), ..Default::default() }` and set_F(v) is `self.F = Some(v); self`, for the four fields", ty="Bool")
+    md = re.search(r"impl\s+Default\s+for\s+Filter\s*\{\s*fn\s+default\s*\(\s*\)\s*->\s*Self\s*\{\s*Self::accept\(\)\s*\}\s*\}", strip_comments(src(rel)))
+    add("filterDefaultIsAccept", "true" if md else "false", "net.rs `impl Default for Filter` is `Self::accept()`", ty="Bool")
 
 
 HOOKS.append(extract_filter_shape)
